@@ -82,7 +82,14 @@ def main():
         finally:
             sh(f'git -C /repo worktree remove --force {wt}')
             shutil.rmtree(wt, ignore_errors=True)
-            resf.write_text(json.dumps(results, indent=1, sort_keys=True) + '\n')
+            # several seed_eval processes (on disjoint properties) may run side by side: merge under a lock
+            import fcntl
+            with open(SEEDED / '.results.lock', 'w') as lk:
+                fcntl.flock(lk, fcntl.LOCK_EX)
+                cur = json.loads(resf.read_text()) if resf.exists() else {}
+                if name in results:
+                    cur[name] = results[name]
+                resf.write_text(json.dumps(cur, indent=1, sort_keys=True) + '\n')
 
 
 if __name__ == '__main__':
